@@ -57,7 +57,7 @@ def gen_event(rng, charset):
         elif k == "id":
             ev[k] = rng.choice(["1", "", "a b", " 7", "é", "0", "x:y", "id", "-1", "i\u2029d", "i\x85", "\x1c9", "i\u0301", "\u2126"]) + rng.choice(["", "", str(rng.randrange(1000))])
         else:
-            ev[k] = rng.choice([0, 1, 5, 3000, 10 ** 9])
+            ev[k] = rng.choice([0, 1, 5, 3000, 10 ** 9, 2 ** 53 + 1, 10 ** 18 + 7, 2 ** 64 - 1])  # (any non-negative integer: digits only on the wire)
     # keep what the charset can encode
     for k in ("data", "event", "id"):
         if k in ev:
